@@ -310,3 +310,69 @@ all_q!(real3, real_q, 3);
 all_q!(mock1, mock_q, 1);
 all_q!(mock2, mock_q, 2);
 all_q!(mock3, mock_q, 3);
+
+/// region-level queries (default methods of GuestMemoryRegion) on one region with symbolic 64-bit base and size
+fn region_queries<R: GuestMemoryRegion>(r: &R, base: u64, size: u64) {
+    assert!(r.start_addr().0 == base && r.len() == size);
+    assert!(r.last_addr().0 == base + (size - 1));
+    let o: u64 = kani::any();
+    let inside = o < size;
+    assert!(r.address_in_range(MemoryRegionAddress(o)) == inside);
+    assert!(r.check_address(MemoryRegionAddress(o)) == if inside { Some(MemoryRegionAddress(o)) } else { None });
+    let off: usize = kani::any();
+    let sum = o as u128 + off as u128;
+    match r.checked_offset(MemoryRegionAddress(o), off) {
+        Some(x) => assert!(sum < size as u128 && x.0 as u128 == sum),
+        None => assert!(sum >= size as u128),
+    }
+    let ga: u64 = kani::any();
+    match r.to_region_addr(GuestAddress(ga)) {
+        Some(x) => assert!(ga >= base && ga - base < size && x.0 == ga - base),
+        None => assert!(ga < base || ga - base >= size),
+    }
+    kani::cover!(o == size); // first address past the region
+    kani::cover!(o == size - 1);
+    kani::cover!(sum == size as u128 && off > 0);
+    kani::cover!(ga == base + (size - 1));
+    kani::cover!(ga > base && ga - base == size);
+    kani::cover!(ga < base);
+}
+
+#[kani::proof]
+fn region_queries_real() {
+    cffi::small_pages();
+    cffi::link();
+    let mut pool = PagePool([0u8; 64]);
+    if let Some((a, base, size)) = one_region(pool.0.as_mut_ptr(), u64::MAX) {
+        region_queries(&*a, base, size);
+        // host address: inside the region only (size bounded by the pool for the pointer comparison)
+        core::mem::forget(a);
+    }
+}
+
+#[kani::proof]
+fn region_host_address_real() {
+    cffi::small_pages();
+    cffi::link();
+    let mut pool = PagePool([0u8; 64]);
+    let host = pool.0.as_mut_ptr();
+    if let Some((a, base, size)) = one_region(host, 64) {
+        let o: u64 = kani::any();
+        let r = a.get_host_address(MemoryRegionAddress(o));
+        match &r {
+            Ok(p) => assert!(o < size && *p == host.wrapping_add(o as usize)),
+            Err(e) => assert!(o >= size && gkind(e) == GK::InvalidBackendAddress),
+        }
+        kani::cover!(r.is_ok() && o == size - 1);
+        kani::cover!(r.is_err() && o == size);
+        leak(r);
+        core::mem::forget(a);
+    }
+}
+
+#[kani::proof]
+fn region_queries_mock() {
+    let mut pool = [0u8; mock::POOL];
+    let (m, l) = mock_map::<1>(&mut pool, u64::MAX);
+    region_queries(&m.regions[0], l.base[0], l.size[0]);
+}
